@@ -129,8 +129,10 @@ void h_bus0_recv_cancel(void)
 	VP_CANARY();
 }
 void h_bus0_sock_close(void) { VP_HAVOC_GHOSTS(); vp_mk_bus(nondet_size_t()); bus0_sock_close(g_s); VP_CANARY(); }
-void h_bus0_sock_init(void) { void *arg; nni_sock *ns; VP_HAVOC_GHOSTS(); bus0_sock_init(arg, ns); VP_CANARY(); }
-void h_bus0_sock_init_raw(void) { void *arg; nni_sock *ns; VP_HAVOC_GHOSTS(); bus0_sock_init_raw(arg, ns); VP_CANARY(); }
+/* a NEW socket object: every field unconstrained (not yet initialised); only the identities of its two pollables are bound */
+static void vp_mk_rawsock(void) { g_s = VP_NEW(bus0_sock); g_pollr_addr = &g_s->can_recv; g_pollw_addr = &g_s->can_send; }
+void h_bus0_sock_init(void) { nni_sock *ns; VP_HAVOC_GHOSTS(); vp_mk_rawsock(); bus0_sock_init(g_s, ns); VP_CANARY(); }
+void h_bus0_sock_init_raw(void) { nni_sock *ns; VP_HAVOC_GHOSTS(); vp_mk_rawsock(); bus0_sock_init_raw(g_s, ns); VP_CANARY(); }
 void h_bus0_sock_fini(void) { VP_HAVOC_GHOSTS(); vp_mk_bus(nondet_size_t()); bus0_sock_fini(g_s); VP_CANARY(); }
 void h_bus0_sock_set_recv_buf_len(void)
 {
